@@ -45,7 +45,15 @@ func register(name string, p Property) { registry[name] = p }
 // ---- PRNG: splitmix64, every random choice derives from one state ----
 type Rng struct{ s uint64 }
 
-func NewRng(seed uint64) *Rng { return &Rng{s: seed*0x9E3779B97F4A7C15 + 0x1234567} }
+// the seed is scrambled through one splitmix64 output so that neighbouring seeds give unrelated streams
+// (seed 1 keeps its historical stream start so committed corpora/evidence stay comparable)
+func NewRng(seed uint64) *Rng {
+	if seed == 1 {
+		return &Rng{s: seed*0x9E3779B97F4A7C15 + 0x1234567}
+	}
+	r := &Rng{s: seed ^ 0xD1B54A32D192ED03}
+	return &Rng{s: r.Next()}
+}
 func (r *Rng) Next() uint64 {
 	r.s += 0x9E3779B97F4A7C15
 	z := r.s
